@@ -99,3 +99,34 @@ func VerifC15Sched(h *verifrt.H) {
 		h.Cover("end")
 	})
 }
+
+// VerifC15Try: non-waiting acquires race with each other and with a waiting acquire on a fresh
+// guard (every thread's mode is a choice; at least one is non-waiting): a non-waiting acquire
+// that returns a non-zero id IS the holder - at most one holder at a time - and after every
+// holder has released, the guard is free again (a fresh non-waiting acquire succeeds).
+func VerifC15Try(h *verifrt.H) {
+	g := New()
+	k := h.Param("threads", 2)
+	holders := 0
+	for i := 0; i < k; i++ {
+		waiting := i > 0 && h.Choose("waitingMode", 2) == 1
+		h.Go("op", func() {
+			id := g.StartTreasureGuard(waiting)
+			if id == 0 {
+				h.Assert(!waiting, "waiting-acquire-returns-an-id")
+				return // busy: a non-waiting caller walks away
+			}
+			holders++
+			h.Assert(holders == 1, "exclusive-holder")
+			h.Yield()
+			holders--
+			g.ReleaseTreasureGuard(id)
+		})
+	}
+	h.AtQuiescence(func() {
+		id := g.StartTreasureGuard(false)
+		h.Assert(id != 0, "guard-free-after-all-released")
+		h.Cover("end")
+	})
+}
+
